@@ -153,6 +153,26 @@ func dimsCmd(args []string) error {
 			}
 		}
 	}
+	// width x height pairs whose product is 0, 1 or negative in 32-bit (and 2^32, 2^48 in 64-bit)
+	// arithmetic: legal declarations, the loaders report them as they stand
+	for _, f := range fields {
+		if f.bits < 24 {
+			continue
+		}
+		for _, p := range [][2]int64{{1 << 16, 1 << 16}, {1 << 20, 1 << 12}, {1 << 12, 1 << 20}, {3 << 15, 1 << 17}, {1 << 16, 1 << 15}, {46341, 46341},
+			{65537, 65535}, {1 << 24, 1 << 8}, {1 << 24, 1 << 24}, {1 << 30, 4}, {2, 1 << 30}, {1<<31 - 1, 1<<31 - 1}, {1 << 16, 3 << 16}, {641, 6700417}} {
+			max := int64(1)<<f.bits - 1
+			if f.name == "vp8x" {
+				max = 1 << 24
+			}
+			if p[0] > max || p[1] > max {
+				continue
+			}
+			if err := emit(f.fmtName, f.mk(p[0], p[1])); err != nil {
+				return err
+			}
+		}
+	}
 	// C06: profile sizes and chunk counts beyond the bounded grammar - 255 chunks in a seeded
 	// order among other segments, full-size (65519-byte) chunks, multi-MiB profiles
 	if *icc {
